@@ -75,4 +75,6 @@ UNIT = dict(
                                 rep=r'let buffer = verif_concat(\3, \4);', regex=True, count=1)),
   ],
   assumption_ids=['A-fiber', 'A-heap', 'A-float'],
+  # every handler under contract also carries C16: internal_error requires false, unchecked stack access has a depth precondition
+  extra_tags={'Vm::*': ['C16']},
 )
